@@ -322,7 +322,8 @@ class Sym:
                 v = env["locals"].get(pe[1])
                 if v is None and 1 <= pe[1] <= self.nparams:
                     v = ("param", pe[1])
-                if v is not None and v[0] in ("call", "const", "cpath", "bin", "cast", "field", "variant", "load", "param", "index", "cindex", "ref"):
+                if v is not None and v[0] in ("call", "const", "cpath", "bin", "cast", "field", "variant", "load", "param", "index", "cindex", "ref") \
+                        or (v is not None and v[0] == "agg" and v[1] in ("array", "tuple")):
                     # shared reference to a temporary holding a known value
                     return ("ref", False, ("val", v))
             return ("ref", s["bk"] == "mut", pe)
